@@ -248,7 +248,8 @@ impl<'a> Iterator for ExtDiagBlockIter<'a> {
     type Item = ExtDiagBlock<'a>;
 
     fn next(&mut self) -> Option<Self::Item> {
-        let raw_buffer = self.ext_diag.raw_diag_buffer().unwrap();
+        // Without a buffer, no ext. diagnostics are recorded so there are no blocks to yield.
+        let raw_buffer = self.ext_diag.raw_diag_buffer()?;
         if self.cursor >= raw_buffer.len() {
             return None;
         }
